@@ -45,6 +45,24 @@ impl El for Cn {
     }
 }
 
+/// zero-sized element: every value reads 0 (run `--elem zs`: the case's values and written values are all 0), so
+/// what shows is HOW MANY elements each operation visits / returns -- a pointer-range walk sees none of them
+#[derive(Clone)]
+struct Zs;
+impl std::fmt::Debug for Zs {
+    fn fmt(&self, f: &mut std::fmt::Formatter) -> std::fmt::Result {
+        write!(f, "0")
+    }
+}
+impl El for Zs {
+    fn mk(_: u32) -> Zs {
+        Zs
+    }
+    fn val(&self) -> u32 {
+        0
+    }
+}
+
 fn opt<E: El>(out: &mut Vec<i128>, o: Option<E>) {
     match o {
         None => out.push(0),
@@ -186,15 +204,32 @@ fn run_case(case: &[i128]) -> Vec<i128> {
     let vals = &case[1..1 + n];
     let ops = &case[1 + n..];
     let cn = std::env::args().any(|a| a == "cn");
+    let zs = std::env::args().any(|a| a == "zs");
     dispatch_len!(
         n,
         [U0, U1, U2, U3, U4, U5, U6, U7, U8, U16, U97, U1024],
-        |N| if cn { run::<Cn, N>(vals, ops) } else { run::<u32, N>(vals, ops) },
+        |N| if cn { run::<Cn, N>(vals, ops) } else if zs { run::<Zs, N>(vals, ops) } else { run::<u32, N>(vals, ops) },
         panic!("length {} not monomorphised", n)
     )
 }
 
 fn do_case(case: Vec<i128>) {
+    let mut case = case;
+    if std::env::args().any(|a| a == "zs") && !case.is_empty() && case[0] >= 0 {
+        // zero-sized elements: all values, and all written values, are 0
+        let n = case[0] as usize;
+        for v in &mut case[1..1 + n] {
+            *v = 0;
+        }
+        let mut i = 1 + n;
+        while i < case.len() {
+            let l = op_len(case[i]);
+            if case[i] == 7 && i + 2 < case.len() {
+                case[i + 2] = 0;
+            }
+            i += l;
+        }
+    }
     emit_case(&case);
     match catch(|| run_case(&case)) {
         Ok(obs) => emit_obs(&obs),
